@@ -2495,6 +2495,12 @@ func sessionEnv(pConn *PFCPConn) bool {
 	return connInv(pConn) && storeInv(pConn) && pConn.InstrumentPFCP != nil
 }
 
+// sendError (the closure of handleSessionDeletionRequest): a rejection that answers the request.
+//@ func (pConn *PFCPConn) handleSessionDeletionRequest#1(err error) (m message.Message, e error) free(sdreq *message.SessionDeletionRequest)
+//@   requires sdreq != nil && sdreq.Header != nil
+//@   freshwrites message.SessionDeletionResponse, message.Header, ie.IE
+//@   ensures C02.del.senderror: e == err && typeIs[*message.SessionDeletionResponse](m) && dynRef(m) != 0 && !allocated(m) && specDelResp(m).Header != nil && specDelResp(m).Header.SequenceNumber == sdreq.Header.SequenceNumber && specDelResp(m).Header.SEID == 0 && specDelResp(m).Cause != nil && specIEu8(specDelResp(m).Cause) == ie.CauseRequestRejected
+
 //@ func (pConn *PFCPConn) handleSessionDeletionRequest(msg message.Message) (reply message.Message, err error)
 //@   requires sessionEnv(pConn) && msgWF(msg)
 //@   requires C01.del.pool: specPoolReady(pConn)
